@@ -91,7 +91,7 @@ Proof. intros p ts ov b f body c3. exact (loop_true_do_step gen_ptab p ts ov b f
 Theorem C14_loop_do_conditional : forall p ts ov b f body c3 c3',
   go gen_ptab (S (S f)) (QStmt (mkctx (TK KLoop :: p) (TK KDo :: ts) ov false)) = Ok (RS body c3) ->
   go gen_ptab (S (S f)) (QStmt (mkctx (TBool true :: TK KLoop :: p) (TK KDo :: ts) ov false)) = Ok (RS body c3') ->
-  prev_smp c3 c3' ->
+  same_modulo_pre c3 c3' -> prev_smp c3 c3' ->
   same_out (go gen_ptab (S (S (S f))) (QStmt (mkctx p (TK KLoop :: TK KDo :: ts) ov b)))
            (go gen_ptab (S (S (S f))) (QStmt (mkctx p (TK KLoop :: TBool true :: TK KDo :: ts) ov b))).
 Proof. intros p ts ov b f body c3 c3'. exact (loop_do_conditional gen_ptab p ts ov b f body c3 c3' C14_do_not_infix). Qed.
